@@ -31,7 +31,7 @@ THOROUGH_RUNS = 400_000
 EXPECT_PROBES = ["stop_during_restart_delay", "stop_during_run", "stop_before_start", "stop_after_completion",
                  "restart_limit_reached", "base_exception_outcome", "cancel_converted_to_exception", "extra_task_added",
                  "run_utils_used", "start_while_running", "concurrent_stops", "extra_task_failed",
-                 "actors_with_equal_names"]
+                 "actors_with_equal_names", "aexit_after_body_raised"]
 
 
 class ProbeBase(BaseException):
@@ -210,6 +210,10 @@ def scenario(sim: Sim) -> None:
                     await o.stop("stop by controller")
                 elif kind == "aexit":
                     await o.__aexit__(None, None, None)
+                elif kind == "aexit_exc":
+                    # the `async with` block is left because its body raised: the service is stopped all the same
+                    body_exc = RuntimeError("body of the async-with block failed")
+                    await o.__aexit__(RuntimeError, body_exc, None)
                 elif kind == "wait":
                     await o.wait()
                 else:
@@ -227,7 +231,7 @@ def scenario(sim: Sim) -> None:
                 sim.violation("stop_waits_for_tasks", {"op": kind, "what": "returned while a task is still running"},
                               f"{kind}() of {rec.name} returned at t={sim.now_us} us with {len(notdone)} of "
                               f"{len(at_call)} tasks (present at call time) not finished")
-            if kind in ("stop", "aexit"):
+            if kind in ("stop", "aexit", "aexit_exc"):
                 want = []
                 for t in at_call:
                     if t.cancelled():
@@ -321,7 +325,11 @@ def scenario(sim: Sim) -> None:
             elif ok == 4:
                 ctl_tasks.append(sim.spawn(do_stop(i, "await")))
             elif ok == 5:
-                ctl_tasks.append(sim.spawn(do_stop(i, "aexit")))
+                if ch.chance("body_raised", 0.4):
+                    sim.probe("aexit_after_body_raised")
+                    ctl_tasks.append(sim.spawn(do_stop(i, "aexit_exc")))
+                else:
+                    ctl_tasks.append(sim.spawn(do_stop(i, "aexit")))
             elif ok == 6:
                 o.release.set()
                 o.release = asyncio.Event()
@@ -361,7 +369,7 @@ def scenario(sim: Sim) -> None:
                     pass
         await asyncio.sleep(0.1)
         for op in pending_ops:
-            if not op["done"] and op["kind"] in ("stop", "aexit") and not any(
+            if not op["done"] and op["kind"] in ("stop", "aexit", "aexit_exc") and not any(
                     r.unspecified for r in recs if r.name in op["actor"].split(",")):
                 sim.violation("stop_returns", {"what": "stop() still pending after everything finished", "op": op["kind"]},
                               f"{op['kind']}({op['actor']}) called at {op['t_call']} us never returned")
